@@ -80,12 +80,6 @@ def handle (op : String) (args : List String) : Option String :=
     let k ← k.toNat?; let tr ← parseTrace tr
     let (ms, status, st, left) := readUpTo k {} (Spec.RtmpChunk.specBytes tr) []
     pure s!"{msgsStr ms} {status} {st.inChunk} {left}"
-  | "rtmp.basic", [wire] => do
-    let wire ← parseBytes wire
-    pure ((readBasicHeader wire).str fun ((f, c), rest) => s!"{f} {c} {rest.length}")
-  | "rtmp.spec.basic", [fmt, cid, form] => do
-    let fmt ← fmt.toNat?; let cid ← cid.toNat?; let form ← form.toNat?
-    pure s!"{toHex (Spec.RtmpChunk.basicHeader fmt cid form)} {b01 (decide (Spec.RtmpChunk.FormLegal cid form))}"
   | "rtmp.write", [c, ms] => do
     let c ← c.toNat?; let ms ← parseMsgs ms
     pure ((writeAll c ms).str toHex)
